@@ -18,6 +18,7 @@ import (
 	"sort"
 	"strings"
 	"sync"
+	"time"
 
 	"github.com/v-byte-cpu/sx/command"
 	"github.com/v-byte-cpu/sx/pkg/scan"
@@ -65,6 +66,8 @@ type caseJ struct {
 	Errors   []int  `json:"errors,omitempty"` // chain: sorted error classes
 	Big      bool   `json:"big,omitempty"`
 	Forced   bool   `json:"forced,omitempty"`
+	Frames   bool   `json:"frames,omitempty"` // observed on decoded frames of the real packet source
+	Volume   int    `json:"volume,omitempty"`
 }
 
 type nestedIPs struct {
@@ -470,6 +473,88 @@ func mkChain(caseSeed int64, big bool) caseJ {
 	return c
 }
 
+// mkFrames: a subnet scan of a packet command through its REAL packet source (request generator, the command's
+// own filler, NumCPU packet workers, the merger): the frames are decoded and the multiset of (destination
+// address, destination port) on them is the observation.  Thousands of requests, so that workers overlap.
+func mkFrames(caseSeed int64, volume int, cmd string) caseJ {
+	tgt.Settle(baseGoroutines)
+	r := hlib.NewRand(caseSeed)
+	c := caseJ{Kind: "chain", CaseSeed: caseSeed, Seed: r.Int63(), Frames: true, Volume: volume}
+	c.Cmd = cmd
+	c.Portless = c.Cmd == "icmp" || c.Cmd == "arp"
+	c.Class = c.Cmd + ":frames"
+	opts := &command.VerifTargetOpts{}
+	k := 26 + r.Intn(3)
+	if c.Portless {
+		k = 22 + r.Intn(5)
+	}
+	a, _ := tgt.RandNet4(r, k, k, r.Bool())
+	size := 1 << uint(32-k)
+	c.NetBase, c.NetK = a, k
+	mask := net.CIDRMask(k, 32)
+	dst := &net.IPNet{IP: tgt.U32(a), Mask: mask}
+	c.NetIP, c.NetMask = hex.EncodeToString(tgt.U32(a)), hex.EncodeToString(mask)
+	base := a &^ (uint32(size) - 1)
+	if !c.Portless {
+		rs, _ := tgt.RandRanges(r, 2+r.Intn(6), volume/size)
+		opts.PortRanges = rs
+		c.Ranges = tgt.RangesJSON(rs)
+	}
+	if r.Bool() {
+		c.Filter = true
+		opts.ExcludeIPs, c.Nets = exclusionAround(r, base, size)
+	}
+	if c.Cmd != "arp" {
+		// as in the commands: outside VPN mode the ARP stage is always there
+		c.Cache, c.Gateway = true, true
+		var es []tgt.CacheEntry
+		opts.Cache, es, opts.GatewayMAC = tgt.RandCache(r, base, size, r.Intn(6), true)
+		c.CacheEnc = hex.EncodeToString(tgt.EncCache(es, opts.GatewayMAC))
+	}
+	rng := &scan.Range{DstSubnet: dst, Ports: opts.PortRanges, SrcIP: net.IPv4(10, 0, 0, 1).To4(), SrcMAC: net.HardwareAddr{2, 0, 0, 0, 0, 1}}
+	ctx, cancel := context.WithCancel(context.Background())
+	defer cancel()
+	rand.Seed(c.Seed)
+	var ks [][]byte
+	pkts := command.VerifScanMethod(ctx, c.Cmd, opts).Packets(ctx, rng)
+	timeout := time.After(60 * time.Second)
+loop:
+	for {
+		select {
+		case p, ok := <-pkts:
+			if !ok {
+				c.Complete = true
+				break loop
+			}
+			if p.Err != nil {
+				c.Errors = append(c.Errors, tgt.ErrClass(p.Err))
+				if c.ErrMsg == "" {
+					c.ErrMsg = p.Err.Error()
+				}
+				continue
+			}
+			f := p.Buf.Bytes()
+			switch {
+			case len(f) >= 42 && f[12] == 8 && f[13] == 6:
+				ks = append(ks, []byte{f[38], f[39], f[40], f[41], 0, 0})
+			case len(f) >= 38 && f[12] == 8 && f[13] == 0 && (f[23] == 6 || f[23] == 17):
+				ks = append(ks, []byte{f[30], f[31], f[32], f[33], f[36], f[37]})
+			case len(f) >= 34 && f[12] == 8 && f[13] == 0:
+				ks = append(ks, []byte{f[30], f[31], f[32], f[33], 0, 0})
+			default:
+				ks = append(ks, []byte{0xde, 0xad, 0xbe, 0xef, 0, 0})
+			}
+		case <-timeout:
+			c.Stuck = true
+			break loop
+		}
+	}
+	c.NProbes = len(ks)
+	c.Probes = sortKeys(ks)
+	sort.Ints(c.Errors)
+	return c
+}
+
 var stdinContent string
 
 // forceFilter: every chain case gets an exclusion list (the C02 check drives the chains of all commands this way)
@@ -512,6 +597,7 @@ func main() {
 	sx := flag.String("e2e", "", "end-to-end runs with this sx binary in private network namespaces")
 	ne2e := flag.Int("ne2e", 8, "number of end-to-end runs")
 	flag.BoolVar(&forceFilter, "forcefilter", false, "every chain case has an exclusion list")
+	nframes := flag.Int("nframes", 0, "chain cases observed on the frames of the real packet source")
 	e2eSet := flag.String("e2eset", "coverage", "coverage | refuse (non-IPv4 targets, for C02)")
 	flag.Parse()
 	if *sniffIf != "" {
@@ -543,6 +629,15 @@ func main() {
 			w.Put(mkPorts(cs))
 		case "nested":
 			w.Put(mkNested(cs))
+		case "frames":
+			vol, cmd := 2000, "udp"
+			if len(f) > 2 {
+				fmt.Sscan(f[2], &vol)
+			}
+			if len(f) > 3 {
+				cmd = f[3]
+			}
+			w.Put(mkFrames(cs, vol, cmd))
 		default:
 			big := false
 			for _, x := range f[2:] {
@@ -566,5 +661,15 @@ func main() {
 	}
 	for i := 0; i < *nchain; i++ {
 		w.Put(mkChain(r.Int63(), *big))
+	}
+	for i := 0; i < *nframes; i++ {
+		// mostly moderate volumes (also evaluated by the model), every third one a large one
+		// every packet command in rotation, moderate volumes (also evaluated by the model); every third case a large
+		// udp / tcp one
+		vol, cmd := 1500+r.Intn(2000), []string{"udp", "tcp", "icmp", "arp"}[i%4]
+		if i%3 == 2 {
+			vol, cmd = 20000, []string{"udp", "tcp"}[(i/3)%2]
+		}
+		w.Put(mkFrames(r.Int63(), vol, cmd))
 	}
 }
